@@ -11,6 +11,20 @@ import (
 // TODO we assume it's always application keys. Add in the right modes and
 // encode properly
 func encodeXterm(key vaxis.Key, deckpam bool, decckm bool) string {
+	// Keypad keys (a host whose terminal speaks the kitty keyboard protocol
+	// reports them with key codes of their own). In application keypad mode
+	// an unmodified keypad key sends its SS3 code - unless Num Lock is on,
+	// which overrides the mode as it does in xterm. In every other case a
+	// keypad key is the key its legend names: the character, Enter, or the
+	// cursor / editing key
+	if val, ok := keypadApplicationMode[key.Keycode]; ok && deckpam &&
+		key.Modifiers&(vaxis.ModShift|vaxis.ModAlt|vaxis.ModCtrl|vaxis.ModNumLock) == 0 {
+		return val
+	}
+	if val, ok := keypadNumericMode[key.Keycode]; ok {
+		key.Keycode = val
+	}
+
 	// ignore any kitty mods
 	xtermMods := key.Modifiers & vaxis.ModShift
 	xtermMods |= key.Modifiers & vaxis.ModAlt
@@ -150,6 +164,8 @@ var xtermKeymap = map[rune]keycode{
 	vaxis.KeyF10:    {21, '~'},
 	vaxis.KeyF11:    {23, '~'},
 	vaxis.KeyF12:    {24, '~'},
+
+	vaxis.KeyKeyPadBegin: {1, 'E'},
 }
 
 var cursorKeysApplicationMode = map[rune]string{
@@ -159,6 +175,8 @@ var cursorKeysApplicationMode = map[rune]string{
 	vaxis.KeyLeft:  "\x1BOD",
 	vaxis.KeyEnd:   "\x1BOF",
 	vaxis.KeyHome:  "\x1BOH",
+
+	vaxis.KeyKeyPadBegin: "\x1BOE",
 }
 
 var cursorKeysNormalMode = map[rune]string{
@@ -168,6 +186,8 @@ var cursorKeysNormalMode = map[rune]string{
 	vaxis.KeyLeft:  "\x1B[D",
 	vaxis.KeyEnd:   "\x1B[F",
 	vaxis.KeyHome:  "\x1B[H",
+
+	vaxis.KeyKeyPadBegin: "\x1B[E",
 }
 
 // TODO are these needed? can we even detect this from the host? I guess we can
@@ -185,6 +205,62 @@ var applicationKeymap = map[rune]string{
 	vaxis.KeyDelete: "\x1B[3~",
 	vaxis.KeyPgUp:   "\x1B[5~",
 	vaxis.KeyPgDown: "\x1B[6~",
+}
+
+// keypadApplicationMode is what the keypad keys send in application keypad
+// mode (DECKPAM)
+var keypadApplicationMode = map[rune]string{
+	vaxis.KeyKeyPad0:         "\x1BOp",
+	vaxis.KeyKeyPad1:         "\x1BOq",
+	vaxis.KeyKeyPad2:         "\x1BOr",
+	vaxis.KeyKeyPad3:         "\x1BOs",
+	vaxis.KeyKeyPad4:         "\x1BOt",
+	vaxis.KeyKeyPad5:         "\x1BOu",
+	vaxis.KeyKeyPad6:         "\x1BOv",
+	vaxis.KeyKeyPad7:         "\x1BOw",
+	vaxis.KeyKeyPad8:         "\x1BOx",
+	vaxis.KeyKeyPad9:         "\x1BOy",
+	vaxis.KeyKeyPadDecimal:   "\x1BOn",
+	vaxis.KeyKeyPadDivide:    "\x1BOo",
+	vaxis.KeyKeyPadMultiply:  "\x1BOj",
+	vaxis.KeyKeyPadSubtract:  "\x1BOm",
+	vaxis.KeyKeyPadAdd:       "\x1BOk",
+	vaxis.KeyKeyPadEnter:     "\x1BOM",
+	vaxis.KeyKeyPadEqual:     "\x1BOX",
+	vaxis.KeyKeyPadSeparator: "\x1BOl",
+}
+
+// keypadNumericMode is the key a keypad key stands for in numeric keypad mode
+// (DECKPNM): the character of its legend, Enter, or the cursor / editing key
+var keypadNumericMode = map[rune]rune{
+	vaxis.KeyKeyPad0:         '0',
+	vaxis.KeyKeyPad1:         '1',
+	vaxis.KeyKeyPad2:         '2',
+	vaxis.KeyKeyPad3:         '3',
+	vaxis.KeyKeyPad4:         '4',
+	vaxis.KeyKeyPad5:         '5',
+	vaxis.KeyKeyPad6:         '6',
+	vaxis.KeyKeyPad7:         '7',
+	vaxis.KeyKeyPad8:         '8',
+	vaxis.KeyKeyPad9:         '9',
+	vaxis.KeyKeyPadDecimal:   '.',
+	vaxis.KeyKeyPadDivide:    '/',
+	vaxis.KeyKeyPadMultiply:  '*',
+	vaxis.KeyKeyPadSubtract:  '-',
+	vaxis.KeyKeyPadAdd:       '+',
+	vaxis.KeyKeyPadEnter:     vaxis.KeyEnter,
+	vaxis.KeyKeyPadEqual:     '=',
+	vaxis.KeyKeyPadSeparator: ',',
+	vaxis.KeyKeyPadLeft:      vaxis.KeyLeft,
+	vaxis.KeyKeyPadRight:     vaxis.KeyRight,
+	vaxis.KeyKeyPadUp:        vaxis.KeyUp,
+	vaxis.KeyKeyPadDown:      vaxis.KeyDown,
+	vaxis.KeyKeyPadPageUp:    vaxis.KeyPgUp,
+	vaxis.KeyKeyPadPageDown:  vaxis.KeyPgDown,
+	vaxis.KeyKeyPadHome:      vaxis.KeyHome,
+	vaxis.KeyKeyPadEnd:       vaxis.KeyEnd,
+	vaxis.KeyKeyPadInsert:    vaxis.KeyInsert,
+	vaxis.KeyKeyPadDelete:    vaxis.KeyDelete,
 }
 
 var keymap = map[rune]string{
